@@ -463,6 +463,18 @@ def main(argv):
                     if expect not in got or ("INCLUDE" in got) != ("INCLUDE" in expect):
                         fail("include#first_matching_directory_wins_per_parse", dict(main=msrc, include_dirs=["A" if x == da else "B" if x == db else "C" for x in dirs]),
                              dict(printed=got, expected_line=expect))
+            # an entry of that name that is not a file (a directory) in an earlier include directory is not a match
+            with tempfile.TemporaryDirectory() as dx:
+                os.mkdir(os.path.join(dx, "a")); os.mkdir(os.path.join(dx, "b")); os.mkdir(os.path.join(dx, "a", "x.inc"))
+                open(os.path.join(dx, "b", "x.inc"), "w").write("  i = 7\n")
+                cases += 1
+                msrc2 = "program p\n  integer :: i\n  include 'x.inc'\nend program p\n"
+                try:
+                    got = str(ParserFactory().create(std="f2003")(FortranStringReader(msrc2, include_dirs=[os.path.join(dx, "a"), os.path.join(dx, "b")])))
+                except BaseException as e:  # noqa
+                    got = "%s: %s" % (type(e).__name__, e)
+                if "i = 7" not in got or "INCLUDE" in got:
+                    fail("include#directory_entry_is_not_a_match", dict(main=msrc2), dict(printed=got))
             # reader options are the same inside the included file (every option the reader constructor takes)
             from fparser.two.utils import walk as _walk
             body2 = ["  integer :: i", "  ! a note", "  !$ i = 3", "  !$omp barrier", "  i = 1"]
